@@ -7019,21 +7019,16 @@ class _RoundShape(Shape):
     def implicit_rx(self):
         if not self.apply:
             return self.rx
-        prx = Point(self.rx, 0)
-        prx *= self.transform
-        origin = Point(0, 0)
-        origin *= self.transform
-        return origin.distance_to(prx)
+        # The length of the transformed radius vector; the translation (which may be an unresolved length) plays no part.
+        prx = self.transform.transform_vector([self.rx, 0])
+        return Point(0, 0).distance_to(prx)
 
     @property
     def implicit_ry(self):
         if not self.apply:
             return self.ry
-        pry = Point(0, self.ry)
-        pry *= self.transform
-        origin = Point(0, 0)
-        origin *= self.transform
-        return origin.distance_to(pry)
+        pry = self.transform.transform_vector([0, self.ry])
+        return Point(0, 0).distance_to(pry)
 
     implicit_r = implicit_rx
 
